@@ -2083,6 +2083,137 @@ func runFlushWindow(run *vk.Run, transports []string) {
 	sampleOnce(run, "p3/h5", 1, map[string]any{"part": 3, "case": "forced window between state=connected and flush (H5)", "outcome": out, "wire": t.wireTrace(20)})
 }
 
+// runHotEmitter: ONE goroutine emits numbered events without pause from before Connect() until after
+// the socket has connected; the first `buffered` of them are emitted before Connect() was even
+// called. A single goroutine defines a total emission order, so the order on the wire of that
+// socket must be exactly 0,1,2,...: an event emitted while the offline buffer is being flushed must
+// not overtake the buffered ones (and none may be lost or doubled). The emitter is typically parked
+// on the socket's buffer lock at the moment of the flush, which is what makes the window reachable
+// without a hook inside it.
+func runHotEmitter(run *vk.Run, transports []string, buffered int) {
+	run.Eval(1)
+	w, err := newWorld(0)
+	if err != nil {
+		run.Inconclusive("world: " + err.Error())
+		return
+	}
+	defer w.close()
+	cl := newClient(w.url, transports, 0, 30*time.Millisecond, 200*time.Millisecond, 0)
+	defer closeManager(run, cl.m)
+	s := cl.socket("/")
+	var connected atomic.Bool
+	s.OnConnect(func() { connected.Store(true) })
+	n := 0
+	for ; n < buffered; n++ {
+		s.Emit("hot", n)
+	}
+	stop := make(chan struct{})
+	done := make(chan int)
+	go func() {
+		i := n
+		for {
+			select {
+			case <-stop:
+				done <- i
+				return
+			default:
+			}
+			s.Emit("hot", i)
+			i++
+			if i-n > 50000 {
+				done <- i
+				return
+			}
+		}
+	}()
+	s.Connect()
+	if !vk.WaitUntil(20*time.Second, connected.Load) {
+		close(stop)
+		<-done
+		run.Inconclusive("hot-emitter: no connect within 20 s")
+		return
+	}
+	time.Sleep(5 * time.Millisecond)
+	close(stop)
+	total := <-done
+	// barrier: an acked event emitted by the same goroutine order-wise last
+	acked := make(chan struct{}, 1)
+	s.Emit("hot-fence", func() {
+		select {
+		case acked <- struct{}{}:
+		default:
+		}
+	})
+	sessions := w.raw.Sessions()
+	fenceSeen := false
+	vk.WaitUntil(30*time.Second, func() bool {
+		for _, se := range w.raw.Sessions() {
+			ps, _ := se.Packets()
+			for _, sp := range ps {
+				if rawpeer.EventName(sp.P) == "hot-fence" {
+					fenceSeen = true
+					return true
+				}
+			}
+		}
+		return false
+	})
+	sessions = w.raw.Sessions()
+	var wire []int
+	for _, se := range sessions {
+		ps, _ := se.Packets()
+		for _, sp := range ps {
+			if rawpeer.EventName(sp.P) != "hot" {
+				continue
+			}
+			if a := rawpeer.Args(sp.P); len(a) > 0 {
+				if v, ok := rawpeer.Num(a[0]); ok {
+					wire = append(wire, int(v))
+				}
+			}
+		}
+	}
+	tr := strings.Join(transports, "+")
+	if !fenceSeen {
+		run.Inconclusive(fmt.Sprintf("hot-emitter %s: fence not seen on the wire within 30 s (%d of %d events arrived)", tr, len(wire), total))
+		return
+	}
+	fields := map[string]any{"phase": "hot-emitter"}
+	firstBad := -1
+	for i := range wire {
+		if wire[i] != i {
+			firstBad = i
+			break
+		}
+	}
+	if firstBad >= 0 || len(wire) != total {
+		lo := firstBad - 3
+		if lo < 0 {
+			lo = 0
+		}
+		hi := firstBad + 6
+		if firstBad < 0 {
+			lo, hi = len(wire)-5, len(wire)
+			if lo < 0 {
+				lo = 0
+			}
+		}
+		if hi > len(wire) {
+			hi = len(wire)
+		}
+		kind := "offline-overtaken-by-later-emit"
+		if firstBad < 0 {
+			kind = "offline-event-lost"
+		}
+		run.Violation(vk.Violation{Sub: kind, Fields: fields,
+			What: fmt.Sprintf("one goroutine emitted events 0..%d on one socket (%d of them before Connect()), wire has %d events and deviates from 0,1,2,... at position %d: ...%v... [%s]",
+				total-1, buffered, len(wire), firstBad, wire[lo:hi], tr),
+			Witness: map[string]any{"transports": transports, "buffered_before_connect": buffered, "emitted": total, "on_wire": len(wire), "first_deviation": firstBad, "wire_around": wire[lo:hi], "seed": run.Seed()}})
+	}
+	run.Count("p3_hot_emitter_events", int64(total))
+	run.Distinct(fmt.Sprintf("buffer/hot-emitter/%s/buffered=%d", tr, buffered))
+}
+
 func bufferCases(run *vk.Run, small bool) []bcfg {
 	var out []bcfg
 	mixes := []string{"N", "NV", "NA", "NVA"}
@@ -2284,6 +2415,16 @@ func main() {
 	// the hook is process-wide: the forced-window trials run alone
 	for _, tr := range transportSets {
 		runFlushWindow(run, tr)
+	}
+	// hot emitter through the connect (alone as well: it wants a free CPU for the emitter)
+hot:
+	for rep := 0; rep < run.Pick(6, 40); rep++ {
+		for _, tr := range transportSets {
+			runHotEmitter(run, tr, []int{1, 50, 400, 3000}[rep%4])
+			if run.Violations() > 6 {
+				break hot
+			}
+		}
 	}
 	run.Note("hook_hits_before_flush", sio.VerifHookHits(hookFlush))
 	run.Note("canary_max_stall_overall", cy.maxStall(0, rawpeer.Now()).String())
